@@ -20,6 +20,7 @@ wire mapper: "lower" | "camel" | {"d": [[key, val]]}, val = str | {"dns": true} 
 attr = mapper | {"list": [mapper]}
 instance tree = {field: int | tree | [tree]}  (absent optional fields are missing)
 """
+import itertools
 import json
 
 from typedpy import Structure, Integer, Array, Set, Serializer, Deserializer, mappers, serialize, deserialize_structure
@@ -725,12 +726,14 @@ def run_call(cd, registry, case):
     if ser_w is not None:
         try:
             real_cache = _mappers_module.aggregated_mapper_by_class
-            before = set(real_cache)
+            n0 = len(real_cache)
             doc = ser_w.serialize(camel_case_convert=camel)
             out["doc"] = doc_to_wire(doc)
             names = {c: n for n, c in registry.items()}
+            # the dict keeps insertion order and entries are never removed: the new ones are the last ones
+            fresh = list(itertools.islice(reversed(real_cache.items()), len(real_cache) - n0))[::-1]
             out["cache_new"] = [[names.get(k[0], getattr(k[0], "__name__", "?")), "ov" if k[1] else "", bool(k[2]),
-                                 mapper_to_wire(v)] for k, v in real_cache.items() if k not in before]
+                                 mapper_to_wire(v)] for k, v in fresh]
             doc_f = serialize(x, mapper=explicit, camel_case_convert=camel)
             if doc_f != doc:
                 out["ser_paths_differ"] = [doc, doc_f]
@@ -846,6 +849,11 @@ def tags(case, impl, model):
     t += ["mapper:" + k for k in sorted(mapper_kinds(case["cls"], set()))]
     t.append("entry=" + case.get("entry", "Deserializer"))
     t.append("keep_undefined=" + str(call_ku(case)))
+    mo = (model or {}).get("out") if model else None
+    if mo and "cacheNew" in mo and "cache_new" in impl:
+        same = [e[:3] for e in mo["cacheNew"]] == [e[:3] for e in impl["cache_new"]]
+        t.append("cache-keys-filed=" + ("as-modelled" if same else "differ"))
+        t.append(f"cache-entries-filed={min(len(impl['cache_new']), 4)}")
     if any("bases" in lv for lv in case["cls"]["levels"]):
         t.append("multiple-inheritance")
     if any(lv.get("des") is not None for c in all_cds(case["cls"]) for lv in c["levels"]):
@@ -933,9 +941,16 @@ def correspondence(cd, impl, model):
         if "ok" in r and canon_inst(r["ok"], cd) != canon_inst(m["ok"], cd):
             return (f"{key} instance differs: real {json.dumps(canon_inst(r['ok'], cd))[:300]} model "
                     f"{json.dumps(canon_inst(m['ok'], cd))[:300]}")
-    if "cache_new" in impl and "cacheNew" in model and impl["cache_new"] != model["cacheNew"]:
-        return ("entries filed in aggregated_mapper_by_class by this call differ: real "
-                + json.dumps(impl["cache_new"])[:400] + " model " + json.dumps(model["cacheNew"])[:400])
+    # the cache invariant (CacheOK): an entry the real code filed under a key the model files too must hold the
+    # model's aggregate for that key — a wrong value is handed to every later call with that key.  WHICH keys
+    # get filed is the code's business (a different caching strategy is not a violation): only tagged.
+    if "cache_new" in impl and "cacheNew" in model:
+        mine = {(e[0], e[1], e[2]): e[3] for e in model["cacheNew"]}
+        for e in impl["cache_new"]:
+            k = (e[0], e[1], e[2])
+            if k in mine and mine[k] != e[3]:
+                return (f"aggregated_mapper_by_class[{k}] filed by this call is not the aggregate of that class / "
+                        "override / flag: real " + json.dumps(e[3])[:400] + " model " + json.dumps(mine[k])[:400])
     if not model["keysLaw"]:
         return "model's own document does not satisfy keysLaw (theorem ser_keys_eq_image contradicted?)"
     return None
